@@ -61,7 +61,7 @@ def gen_invalid(draw, G):
         return None
     s = draw(st.sampled_from(spaces))
     p = list(s.path)
-    k = draw(st.integers(0, 21))
+    k = draw(st.integers(0, 23))
     bad = draw(st.sampled_from(BAD_NAMES))
     if k == 0:
         return ["new_space_raw", draw(st.sampled_from([[], p])), bad, None, None]
@@ -150,6 +150,20 @@ def gen_invalid(draw, G):
             return ["_seq", [["new_cells_raw", list(t.path), n, "lambda: 1"], ["add_bases", p, [list(t.path)]]]]
     if k == 21:
         return ["del_member", p, "no_such_member"]
+    if k >= 22:
+        # a base with a resolvable (auto, to its own child) and an unresolvable (relative, to a sibling) reference,
+        # then a new space elsewhere deriving from it: the request is rejected after part of the derivation ran
+        kids = [t for t in spaces if t.path[:-1] == s.path]
+        sibs = [t for t in spaces if t.path[:-1] == s.path[:-1] and t is not s]
+        others = [t for t in spaces if t.path[:len(s.path)] != s.path and t.path != s.path[:-1]
+                  and s.path[:len(t.path)] != t.path]
+        if sibs and others:
+            seq = []
+            if kids:
+                seq.append(["set_ref", p, "ra0", ["o", list(draw(st.sampled_from(kids)).path)], "auto"])
+            seq.append(["set_ref", p, "rel1", ["o", list(draw(st.sampled_from(sibs)).path)], "relative"])
+            seq.append(["new_space_raw", list(draw(st.sampled_from(others)).path), "Zr", [p], None])
+            return ["_seq", seq]
     return None
 
 
